@@ -29,53 +29,7 @@ fn exec(c: &Case) -> Outs {
 
 // ---------------- parse oracle ----------------
 
-pub enum Parsed {
-    Malformed,
-    /// exact rational value: (-1)^neg * num / radix^k
-    Value { neg: bool, num: Big, k: u32 },
-}
-
-/// tokeniser from the stated grammar: [+-]? digit* ('.' digit*)? with at least one digit
-pub fn tokenise(s: &str, radix: u32) -> Parsed {
-    let b = s.as_bytes();
-    let mut i = 0;
-    let mut neg = false;
-    if i < b.len() && (b[i] == b'+' || b[i] == b'-') {
-        neg = b[i] == b'-';
-        i += 1;
-    }
-    let is_digit = |c: u8| (c as char).is_ascii() && (c as char).to_digit(radix).is_some();
-    let int_start = i;
-    while i < b.len() && is_digit(b[i]) {
-        i += 1;
-    }
-    let int_digits = &b[int_start..i];
-    let mut frac_digits: &[u8] = &[];
-    if i < b.len() && b[i] == b'.' {
-        i += 1;
-        let fs = i;
-        while i < b.len() && is_digit(b[i]) {
-            i += 1;
-        }
-        frac_digits = &b[fs..i];
-    }
-    if i != b.len() || (int_digits.is_empty() && frac_digits.is_empty()) {
-        return Parsed::Malformed;
-    }
-    let mut all = int_digits.to_vec();
-    all.extend_from_slice(frac_digits);
-    Parsed::Value { neg, num: Big::from_digits(&all, radix), k: frac_digits.len() as u32 }
-}
-
-/// RNE(num * 2^f / radix^k), signed
-pub fn round_literal(neg: bool, num: &Big, k: u32, radix: u32, f: u32) -> (Big, bool) {
-    let den = Big::from_u64(radix as u64).pow(k);
-    let (q, rem) = num.shl(f).divrem_trunc(&den);
-    let twice = rem.shl(1);
-    let r = if twice > den || (twice == den && q.is_odd()) { q.add_i64(1) } else { q };
-    let exact = rem.is_zero();
-    (if neg { r.neg() } else { r }, exact)
-}
+pub use vcore::lit::{round_literal, tokenise, Parsed};
 
 // ---------------- literal construction ----------------
 
